@@ -227,7 +227,7 @@ def _sh(ctx, sh):
     ctx.check(accept == (status == "ACC") and trial_status == status, "C09:accept-iff-status-ACC",
               f"accept={accept} status={status} path.status={trial_status}")
     # engine stream handed over (C07 hand-over site)
-    ctx.check(eng.rgen == "ENGINE-STREAM", "C09:engine-got-its-stream")
+    ctx.check(eng.rgen == "ENGINE-STREAM", "C07:engine-gets-its-job-stream", f"{eng.rgen!r}")
     # (e)
     idx = [d for d in rng.draws if d[0] == "integers"][0][1]
     ctx.check(1 <= idx <= Lo - 2, "C09:shooting-point-is-never-an-end-point", f"idx={idx} Lo={Lo}")
